@@ -54,7 +54,7 @@ class C17(RailsProp):
             "`bot say something like`) + a 2-4 turn conversation; executed fault-free (P LLM call positions) and then once per (position, hostile text) for every position and a corpus sample "
             "(40 hostile texts + mutations of the well-formed reply). evaluations = executions; non-trivial = executions whose substituted reply was really consumed; "
             "distinct = distinct (mode, task at the position, hostile text name)")
-    expected_probes = ["hostile_at_intent_call", "hostile_at_next_steps_call", "hostile_at_bot_message_call", "hostile_at_v2_value_generation", "template_text_survived_literally", "sequence_of_hostile_replies"]
+    expected_probes = ["hostile_at_intent_call", "hostile_at_next_steps_call", "hostile_at_bot_message_call", "hostile_at_v2_value_generation", "template_text_survived_literally", "sequence_of_hostile_replies", "exact_variable_reference_survived_literally"]
     exhaustive_parts = ["every LLM call position of every sampled conversation", "the whole hostile corpus per position in the thorough tier"]
     quick_runs = 24
     thorough_runs = 1500
@@ -170,6 +170,17 @@ class C17(RailsProp):
                 lit = text.strip().strip('"')
                 if lit not in rec.reply:
                     out.violate("template-evaluated", "%s:%s:%s" % (mode, task, name), "LLM reply %r at call %d (%s) came back as %r: the text in front of the marker was substituted" % (text, pos, task, rec.reply), pin={"hostile": [list(fault)]})
+            # a message that is exactly a variable reference: the user's own text (or any other variable's value) must not come back in
+            # its place, and where the call produces the bot message of the turn the reference itself is what the user reads
+            if name.startswith("exact-var-") and isinstance(rec.reply, str):
+                lit = text.strip().strip('"')
+                user_texts = [t["text"] for c in sc["convs"] for t in c["turns"] if t.get("text")]
+                if rec.reply not in base_replies and any(u == rec.reply.strip() for u in user_texts):
+                    out.violate("template-evaluated", "%s:%s:%s" % (mode, task, name), "LLM reply %r at call %d (%s) came back as the user's own message %r: the variable reference was resolved" % (text, pos, task, rec.reply), pin={"hostile": [list(fault)]})
+                elif task == "generate_bot_message" and "internal error" in rec.reply and "internal error" not in base_replies:
+                    out.violate("template-evaluated", "%s:%s:%s" % (mode, task, name), "LLM reply %r at call %d (%s): the turn ended with %r instead of the text - the variable reference was resolved to a non-text value" % (text, pos, task, rec.reply), pin={"hostile": [list(fault)]})
+                elif lit in rec.reply:
+                    out.probe("exact_variable_reference_survived_literally")
             # a well-formed quoted value: if its sentinel-wrapped text reached the reply at all, it is there character by character
             # (only where the reply is read as a value, and only for template / variable syntax - escape sequences are not the property's subject)
             if name in ("shaped-value-jinja", "shaped-value-var") and task == "v2-value" and isinstance(rec.reply, str) and "Q7" in rec.reply and "Q7" not in base_replies:
@@ -215,7 +226,7 @@ class C17(RailsProp):
                 lab = self._base_tasks[p]
                 special = ("shaped-steps-user-only", "newlines", "blank-then-prose") if "next_steps" in lab else (("ellipsis", "python-import", "python-bytes", "python-complex", "python-set", "shaped-value-jinja", "shaped-value-var", "shaped-value-backslash") if lab == "v2-value" else ())
                 if "bot_message" in lab or lab in ("general", "generate_intent_steps_message", "v2-other", "unknown"):
-                    special = special + ("dollar-price", d.choice(["dollar-var-first", "dollar-var-quoted"], "dollar", p))
+                    special = special + ("dollar-price", d.choice(["dollar-var-first", "dollar-var-quoted"], "dollar", p), d.choice(["exact-var-quoted", "exact-var-bare", "exact-var-object"], "exactvar", p))
                 for must in ("empty", "jinja-expr", "shaped-steps-inline-jinja", d.choice(corpus.SHAPED, "shaped", p)) + special:
                     if must not in pick:
                         pick.append(must)
